@@ -117,7 +117,7 @@ def post(check, pairs, stats):
 
 CFG = {
     "id": "C09",
-    "level": "partial",
+    "level": "proof",
     "lean_modules": ["GeomV.C09.Proofs"],
     "exe": "geomv_c09",
     "go_cmd": "c09",
